@@ -37,6 +37,9 @@ func TestC06(t *testing.T) {
 		w.Count("appends_not_followed_by_quiescence", fmt.Sprint(res.Rushed))
 	}
 	for _, cc := range storeh.Corpus {
+		if cc.Faulty() { // failing writes inside DeleteRange: an [fcase], run by the C08 / C14 drivers (storeh.FaultCases)
+			continue
+		}
 		cfg := storeh.Config{Batch: cc.Batch, Cache: 4, ICache: 4, U: 16, NH: 0, ProbeEvery: false, Ranges: 0, Crash: -1}
 		run(cfg, len(cc.Ops), storeh.Scripted(cc.Ops), "corpus/"+cc.Name)
 	}
